@@ -44,6 +44,9 @@ def run(ctx):
                 ok = bool(blocks) and b.all_paths_pass(blocks, {tb})[0]
                 if not ok:
                     ctx.violation(R_ALL, "%s|true-without-field:%s" % (key, fld), "`true` is answered on a path that did not consult field `%s`" % fld, b.loc(tb))
+    R_PS = ctx.rule("C03.predsib", "a Merge impl that special-cases bottom/top component values has PartialOrd/PartialEq impls consulting the same predicate", floor=10)
+    from lattice_common import predsib_rule
+    predsib_rule(ctx, c, R_PS)
     # ---- siblings
     merges = lattice_impls(c, {"lattices::Merge"})
     by_adt = {}
